@@ -1,3 +1,4 @@
+import DSV.FactsOK.SrcC16
 import DSV.Generated.Facts
 import DSV.LLO.CodecObs
 import DSV.LLO.CodecConfig
